@@ -76,7 +76,7 @@ func init() {
 
 func runC03(c *fw.Ctx, idx int) {
 	cfg := configuration.New()
-	if idx < 4 {
+	if idx < 5 {
 		// directed probes (also the probes of the known findings)
 		switch idx {
 		case 0:
@@ -85,8 +85,12 @@ func runC03(c *fw.Ctx, idx int) {
 				c.Eval()
 				c03FromCTE(c, cfg, text, b0.Log)
 			}
-		case 1, 2, 3:
+		case 1, 2, 3, 4:
 			e := ev.Event{K: ev.TIME, T: compact_time.NewTime(1, 2, 3, 0, compact_time.TZAtAreaLocation("Mars/Olympus Mons"))}
+			if idx == 4 {
+				// a zone text that the CTE decoder does not reject but reads as something else
+				e = ev.Event{K: ev.TIME, T: compact_time.NewTime(0, 6, 49, 253696000, compact_time.TZAtAreaLocation("/Port-au-Prince"))}
+			}
 			if idx == 2 {
 				e = ev.Event{K: ev.MEDIA, S: "text/plain; charset=utf-8", B: []byte{1, 2}}
 			}
@@ -96,7 +100,12 @@ func runC03(c *fw.Ctx, idx int) {
 				d.Exponent = 53207914
 				e = ev.Event{K: ev.BDFLOAT, BD: d}
 			}
-			doc, fi, _ := encodeWithRules(ce.NewCBEEncoder(cfg), []ev.Event{{K: ev.BD}, {K: ev.VER}, e, {K: ev.ED}}, cfg)
+			stream := []ev.Event{{K: ev.BD}, {K: ev.VER}, e, {K: ev.ED}}
+			if idx == 4 {
+				// inside a list the text "//Port-au-Prince" up to the line end is read as a comment, and the time as UTC
+				stream = []ev.Event{{K: ev.BD}, {K: ev.VER}, {K: ev.LIST}, e, {K: ev.END}, {K: ev.ED}}
+			}
+			doc, fi, _ := encodeWithRules(ce.NewCBEEncoder(cfg), stream, cfg)
 			if b0 := decodeDoc(ce.NewCBEDecoder(cfg), doc, cfg, true); fi < 0 && b0.Err == nil && b0.Panic == nil {
 				c.Eval()
 				c03FromCBE(c, cfg, doc, b0.Log)
@@ -217,6 +226,12 @@ func c03FromCBE(c *fw.Ctx, cfg *configuration.Configuration, doc []byte, b0 []ev
 		x, y := ev.FindFirstDiffNodes(c0, c1)
 		if s := numMismatchSig(b0, x, y); s != "" {
 			sig = "cbe->cte:" + s
+		}
+		if x != nil && x.Tag == "time" && x.Src >= 0 && x.Src < len(b0) {
+			// located: the differing time itself has a zone text outside the CTE grammar
+			if r := notCTEExpressible(b0[x.Src : x.Src+1]); r != "" {
+				sig += "@" + r
+			}
 		}
 		c.Fail(sig, map[string]interface{}{"source": src, "events": ev.LogStrings(b0), "cte": string(text), "path": path, "diff": desc})
 		return
